@@ -114,6 +114,7 @@ pub fn names(thorough: bool) -> Vec<&'static str> {
         "ds-unsupported-algorithm-only",
         "island",
         "key-tag-collision",
+        "apex-wildcards",
     ];
     if thorough {
         v.extend(["tld-unsigned", "two-ds-one-unsupported-digest", "p256-and-rsa"]);
@@ -183,15 +184,33 @@ pub fn build(name: &str) -> Hier {
     let nsec = Some(NxProofKind::Nsec);
     match name {
         // root -> t. -> l.t. all signed (NSEC), secure sibling e.t.
-        "all-signed" | "all-signed-nsec3" => {
-            let nx = if name == "all-signed" { nsec.clone() } else { nsec3(false) };
-            let root = ZoneDef { origin: Name::root(), keys: vec![root_key], nx: nx.clone(), records: vec![ns("t."), ds_for("t.", ed[1], F_KSK)] };
+        "all-signed" | "all-signed-nsec3" | "apex-wildcards" => {
+            let nx = if name == "all-signed-nsec3" { nsec3(false) } else { nsec.clone() };
+            let mut rrec = vec![ns("t."), ds_for("t.", ed[1], F_KSK)];
             let mut trec = leaf_records("t.", 10);
+            let mut lrec = leaf_records("l.t.", 20);
+            if name == "apex-wildcards" {
+                // a wildcard directly below the apex of the root, of t. and of l.t.: genuine
+                // `*.<zone> NSEC` records whose RRSIG Labels field is below any name of the zone
+                rrec.push(txt("*.", "wild"));
+                trec.push(txt("*.t.", "wild"));
+                lrec.push(txt("*.l.t.", "wild"));
+            }
+            let root = ZoneDef { origin: Name::root(), keys: vec![root_key], nx: nx.clone(), records: rrec };
             trec.extend([ns("l.t."), ds_for("l.t.", ed[2], F_KSK), ns("e.t."), ds_for("e.t.", ed[3], F_KSK)]);
             let t = ZoneDef { origin: n("t."), keys: vec![(ed[1], F_KSK)], nx: nx.clone(), records: trec };
-            let l = ZoneDef { origin: n("l.t."), keys: vec![(ed[2], F_KSK)], nx: nx.clone(), records: leaf_records("l.t.", 20) };
+            let l = ZoneDef { origin: n("l.t."), keys: vec![(ed[2], F_KSK)], nx: nx.clone(), records: lrec };
             let e = ZoneDef { origin: n("e.t."), keys: vec![(ed[3], F_KSK)], nx, records: leaf_records("e.t.", 30) };
-            finish(Hierarchy::build(name, &[root, t, l, e], &[(0, 0)]), std_queries("l.t."), None, Some("www.e.t."))
+            let mut q = std_queries("l.t.");
+            if name == "apex-wildcards" {
+                // (a name one label below the apex is answered from `*.l.t.`; hickory cannot
+                // validate an expansion directly below the closest encloser - a completeness
+                // matter - so the NXDOMAIN query of the standard list is replaced)
+                q.retain(|x| x.0 != n("nx.l.t."));
+                q.push((n("www.t."), RecordType::A));
+                q.push((n("a.nx.l.t."), RecordType::TXT));
+            }
+            finish(Hierarchy::build(name, &[root, t, l, e], &[(0, 0)]), q, None, Some("www.e.t."))
         }
         // l.t. unsigned, t. proves "no DS" with NSEC / NSEC3 / NSEC3 opt-out
         "leaf-unsigned-nsec" | "leaf-unsigned-nsec3" | "leaf-unsigned-nsec3-optout" => {
